@@ -60,15 +60,16 @@ class Built:
         return self.tree if i == 0 else self.nodes[i]
 
 
-def build(st: dict, fl: Flavour, mk=1, name=None, node_ids=None) -> Built:
+def build(st: dict, fl: Flavour, mk=1, name=None, node_ids=None, order="pre") -> Built:
     """Create a real tree for abstract state `st` (ids must be in pre-order, all live).
-    node_ids: optional {model id: explicit node_id} (custom node keys)"""
+    node_ids: optional {model id: explicit node_id} (custom node keys)
+    order: "pre" creates the nodes depth-first; "level" level by level (creation order differs from pre-order)"""
     st = norm_state(st)
     tree = fl.new_tree(name)
     n = st["n"]
     nodes = [None] * (n + 1)
 
-    def add(parent_obj, i):
+    def add(parent_obj, i, recurse=True):
         d = st["dat"][i - 1]
         mdid = st["did"][i - 1]
         kw = {}
@@ -86,11 +87,21 @@ def build(st: dict, fl: Flavour, mk=1, name=None, node_ids=None) -> Built:
         for k, v in enumerate(m, 1):
             if v:
                 node.set_meta(META_KEYS[k], v)
-        for c in st["kids"][i - 1]:
-            add(node, c)
+        if recurse:
+            for c in st["kids"][i - 1]:
+                add(node, c)
 
-    for i in st["top"]:
-        add(tree, i)
+    if order == "level":
+        level = [(tree, i) for i in st["top"]]
+        while level:
+            nxt = []
+            for parent_obj, i in level:
+                add(parent_obj, i, recurse=False)
+                nxt += [(nodes[i], c) for c in st["kids"][i - 1]]
+            level = nxt
+    else:
+        for i in st["top"]:
+            add(tree, i)
     return Built(tree, nodes, fl, mk)
 
 
